@@ -164,8 +164,12 @@ func followUp(v any) {
 			_ = x.GetImplementationID()
 			_, _ = x.MarshalJSON()
 		}
-		for _, k := range followKeys {
-			_ = x.Verify(k)
+		// (twice round: every key is also presented again, and after every other key)
+		for round := 0; round < 2; round++ {
+			for _, k := range followKeys {
+				_ = x.Verify(k)
+				_ = x.Verify(k)
+			}
 		}
 	case *psatoken.SwComponents[*psatoken.SwComponent]:
 		_ = x.Validate()
